@@ -670,6 +670,23 @@ func genReconn(r *Rng, prop string) *Scenario {
 		lastOp = tA
 	}
 
+	if prop == "C13" && !cfg.EarlyReply && r.chance(0.06) {
+		// aimed: a half-dead link on an otherwise quiet connection: the write of
+		// a keep-alive PINGREQ fails at once, the read side stays silent. The
+		// peer is as silent as can be; only the keep-alive can notice
+		cfg.Frag, cfg.JitterUs, cfg.Yields = nil, nil, nil
+		sc.Ops = sc.Ops[:1]
+		sc.Script = nil
+		k := int(r.between(1, 2))
+		sc.Faults = nil
+		if k == 2 {
+			sc.Faults = append(sc.Faults, Fault{Kind: "cutAt", Conn: 1, AtUs: connectAt + cfg.DialLatUs + cfg.LatC2BUs + cfg.LatB2CUs + r.between(10, 2*cfg.PingIntervalUs)})
+		}
+		// write 0 of a connection is CONNECT; the keep-alive's pings follow
+		sc.Faults = append(sc.Faults, Fault{Kind: "writeErr", Conn: k, N: int(r.between(1, 3)), Prefix: int(r.between(0, 1)), Code: 2})
+		lastOp = connectAt + 8*cfg.PingIntervalUs
+	}
+
 	if prop == "C09" && r.chance(0.03) {
 		// aimed: a long run of consecutive failures (dial errors and refusals),
 		// enough for any arithmetic on the back-off to leave its range, then success
@@ -689,6 +706,28 @@ func genReconn(r *Rng, prop string) *Scenario {
 			}
 		}
 		lastOp = connectAt + int64(nfail)*(cfg.ReconnMaxUs+cfg.DialLatUs+cfg.LatC2BUs+cfg.LatB2CUs+50)
+	}
+	if (prop == "C09" || prop == "C11") && r.chance(0.004) {
+		// aimed: no back-off at all (base 0, or a maximum of 0 so that the doubled
+		// wait is clamped to nothing): an outage of a few failed attempts, and in
+		// half of the runs a Disconnect in the middle of it
+		cfg.Yields, cfg.EarlyReply = nil, false
+		cfg.PingIntervalUs, cfg.KeepAliveSec = 0, 0
+		cfg.ReconnBaseUs, cfg.ReconnMaxUs = r.pickI(0, 0, 500), 0
+		maxBackoff = 500
+		sc.Ops = sc.Ops[:1]
+		sc.Ops[0].CtxTimeoutUs = 0
+		sc.Script = nil
+		cutT := connectAt + cfg.DialLatUs + cfg.LatC2BUs + cfg.LatB2CUs + r.between(100, 2000)
+		sc.Faults = []Fault{{Kind: "cutAt", Conn: 1, AtUs: cutT}}
+		nfail := int(r.between(3, 12))
+		for k := 2; k < 2+nfail; k++ {
+			sc.Faults = append(sc.Faults, Fault{Kind: "dialErr", Conn: k})
+		}
+		lastOp = cutT + int64(nfail+2)*(cfg.DialLatUs+10) + 500
+		if r.chance(0.5) {
+			sc.Ops = append(sc.Ops, Op{AtUs: cutT + r.between(1, int64(nfail)*cfg.DialLatUs), Actor: 3, Kind: "disconnect"})
+		}
 	}
 	if prop == "C09" && r.chance(0.04) {
 		// aimed: on a healthy, quiet connection the application disconnects through
